@@ -66,6 +66,7 @@ def gen_hist_case(rng, max_n=6, max_ops=7):
     case["ops"] = ops
     case["final_args"] = [rng.randrange(1000) for _ in range(rng.randint(sum(1 for p in case["params"] if p["default"] is None), nparams))]
     case["maxc"] = rng.randint(1, 3)
+    case["none_ret"] = [i for i in range(n) if rng.random() < 0.15]
     return case
 
 
@@ -79,7 +80,10 @@ def build(case):
             kw["debug"] = True
         if i in case["setup"]:
             kw["setup"] = True
-        fs.append(tz.mknode("n%d" % i, (lambda i: (lambda *a, **k: ("n%d" % i,) + tuple(a)))(i), **kw))
+        if i in case.get("none_ret", []):
+            fs.append(tz.mknode("n%d" % i, (lambda *a, **k: None), **kw))  # a side-effect-only node: returns None
+        else:
+            fs.append(tz.mknode("n%d" % i, (lambda i: (lambda *a, **k: ("n%d" % i,) + tuple(a)))(i), **kw))
     import inspect
 
     def desc(*params):
@@ -276,7 +280,7 @@ def decode(v, nops):
     return out
 
 
-def run(pid, tier, seed, res):
+def run(pid, tier, seed, res, only=None):
     rng = random.Random(seed * 32452843 + 11)
     n = 250 if tier == "quick" else 3000
     tmpdir = os.path.join(coqrun.BUILD, "kh_%s" % pid)
@@ -288,6 +292,8 @@ def run(pid, tier, seed, res):
         cases.append(json.load(open(f))["case"])
     for _ in range(n):
         cases.append(gen_hist_case(rng, max_n=6 if tier == "quick" else 8))
+    if only is not None:
+        cases = list(only)
     for ci, case in enumerate(cases):
         base = dict(engine="khist", case=case)
         try:
